@@ -125,6 +125,26 @@ func c01Edge() []JRound {
 		raws2 := [][]byte{must(o0.Encode()), must(o1.Encode()), must(o0.Encode()), must(o1.Encode())}
 		out = append(out, buildRound(4, 1, digest, 6, nil, raws2, []int{0, 1, 2, 3}))
 	}
+	// a three-way UniqueID collision, one vote each (n=4, f=1), and with the third variant seen second
+	{
+		digest := genHash(r)
+		t := collisionTriple(genResult(r, genUpkeepID(r, false), 100))
+		enc := func(x ocr2keepers.CheckResult) []byte {
+			return must(ocr2keepersv3.AutomationObservation{Performable: []ocr2keepers.CheckResult{x}}.Encode())
+		}
+		out = append(out, buildRound(4, 1, digest, 8, nil, [][]byte{enc(t[0]), enc(t[1]), enc(t[2])}, []int{0, 1, 2}))
+		out = append(out, buildRound(4, 1, digest, 9, nil, [][]byte{enc(t[0]), enc(t[2]), enc(t[1]), enc(t[2])}, []int{0, 1, 2, 3}))
+		out = append(out, buildRound(7, 2, digest, 9, nil, [][]byte{enc(t[0]), enc(t[2]), enc(t[1]), enc(t[1]), enc(t[2]), enc(t[0]), enc(t[0])}, []int{0, 1, 2, 3, 4, 5, 6}))
+	}
+	// one oracle lists the same result twice, not adjacent: [A, B, A] (must invalidate the whole observation)
+	{
+		digest := genHash(r)
+		a := genResult(r, genUpkeepID(r, false), 100)
+		b := genResult(r, genUpkeepID(r, true), 100)
+		dup := must(ocr2keepersv3.AutomationObservation{Performable: []ocr2keepers.CheckResult{a, b, a}}.Encode())
+		empty := must(ocr2keepersv3.AutomationObservation{}.Encode())
+		out = append(out, buildRound(4, 1, digest, 3, nil, [][]byte{dup, empty, empty}, []int{0, 1, 2}))
+	}
 	return out
 }
 
@@ -216,6 +236,10 @@ func dirtyNode(r *Rng, node *Node, w *roundWorld) {
 	node.Logs.mu.Unlock()
 	time.Sleep(time.Duration(r.Range(2100, 9000)) * time.Millisecond)
 	for i, res := range w.results {
+		_ = i
+		_ = res
+	}
+	for i, res := range w.results {
 		if i%3 == 0 {
 			rep := must(node.Enc.Encode(res))
 			node.Plugin.ShouldAcceptAttestedReport(context.Background(), 1, ocr3types.ReportWithInfo[pluginInfo]{Report: rep})
@@ -225,8 +249,31 @@ func dirtyNode(r *Rng, node *Node, w *roundWorld) {
 }
 
 func evalRound(node *Node, in JRound, times int) (impl JRoundImpl, evals []string, reports [][]string, reperr []string) {
+	var kept [][]byte   // outcome byte slices exactly as returned, retained by the caller
+	var keptHex []string // what they contained when they were returned
+	defer func() {
+		// bytes handed out earlier must not change afterwards (no aliasing of internal buffers)
+		for i := range kept {
+			if hx(kept[i]) != keptHex[i] {
+				evals = append(evals, fmt.Sprintf("RETAINED-BYTES-CHANGED eval %d", i))
+			}
+		}
+	}()
 	for k := 0; k < times; k++ {
+		if k == 2 {
+			// a different round in between (another Encode in the same process)
+			other := in
+			other.Seq = in.Seq + 1
+			if len(other.Obs) > 1 {
+				other.Obs = other.Obs[:len(other.Obs)-1]
+			}
+			runOutcome(node, other)
+		}
 		im, raw := runOutcome(node, in)
+		if raw != nil {
+			kept = append(kept, raw)
+			keptHex = append(keptHex, hx(raw))
+		}
 		if k == 0 {
 			impl = im
 		}
@@ -260,6 +307,16 @@ func TestC02(t *testing.T) {
 					if w != nil {
 						dirtyNode(r, b, w)
 					}
+					// node b has seen OTHER observations from the same observers in this very sequence number before
+					// (an abandoned epoch, an equivocating peer): validation of those must leave no trace
+					for k, o := range in.Obs {
+						alt := must(ocr2keepersv3.AutomationObservation{BlockHistory: ocr2keepers.BlockHistory{{Number: ocr2keepers.BlockNumber(1000 + k), Hash: [32]byte{byte(k + 1)}}}}.Encode())
+						if k%2 == 1 && k > 0 {
+							alt = unhx(in.Obs[k-1].Raw) // somebody else's observation under this observer's id
+						}
+						b.Plugin.ValidateObservation(context.Background(), ocr3types.OutcomeContext{SeqNr: in.Seq}, nil,
+							ocr2plustypes.AttributedObservation{Observation: alt, Observer: commontypes.OracleID(o.Oracle)})
+					}
 					impl, e1, r1, x1 := evalRound(a, in, 4)
 					_, e2, r2, x2 := evalRound(b, in, 4)
 					out = c02Impl{JRoundImpl: impl, Evals: append(e1, e2...), Reports: append(r1, r2...), RepErr: append(x1, x2...)}
@@ -281,6 +338,9 @@ func TestC02(t *testing.T) {
 	}
 	for _, in := range c02Edge() {
 		run2("edge", in, nil, nil)
+	}
+	for _, in := range c01Edge() {
+		run2("edge-c01", in, nil, nil)
 	}
 	r := NewRng(seed() + 2000)
 	n := tierN(150, 3000)
